@@ -86,10 +86,10 @@ theorem crash_state_invariant_pool {cfg : Cfg} (wf : WF cfg) (ord : List Path) (
     completes and every final file equals that of the uninterrupted run on `fs0` -/
 theorem resume_correct_pool_from {cfg : Cfg} (wf : WF cfg) (ord ord' : List Path) (hord : ord.Nodup) (hord' : ord'.Nodup)
     (s1 s2 s1' s2' : List Chr)
-    (fs0 : FS) (hs : cfg.fromSaves = true → SavesConsistent cfg fs0) (k : Nat)
+    (fs0 : FS) (hs : cfg.fromSaves = true → SavesConsistent cfg fs0) (hi : IndexSound cfg fs0) (k : Nat)
     (hk : (lockList cfg fs0).length + 2 ≤ k) : verdictPoolFrom fixed cfg ord ord' s1 s2 s1' s2' fs0 k = .equal := by
   obtain ⟨hevs, hok0, hfs0⟩ := runPool_split wf ord s1 s2 fs0
-  have hJ0 := J0_cleaned fs0 hs
+  have hJ0 := J0_cleaned fs0 hs hi
   have hcl : lockList cfg (cleaned cfg fs0) = [] := lockList_cleaned cfg fs0
   have hsv1 : cfg.fromSaves = true → SavesOK cfg (cleaned cfg fs0) := fun e =>
     savesOK_frame (hs e).1 (cleaned_other cfg fs0 rfl) (fun _ => cleaned_other cfg fs0 rfl) (fun _ => cleaned_other cfg fs0 rfl)
@@ -132,17 +132,18 @@ theorem resume_correct_pool_from {cfg : Cfg} (wf : WF cfg) (ord ord' : List Path
 
 /-- process pool, the output folder already holds the remains of an earlier (killed or finished) run: any leftovers -/
 theorem resume_correct_pool_dirty_folder {cfg : Cfg} (wf : WF cfg) (hm : cfg.fromSaves = false) (ord ord' : List Path)
-    (hord : ord.Nodup) (hord' : ord'.Nodup) (s1 s2 s1' s2' : List Chr) (fs0 : FS) (k : Nat)
+    (hord : ord.Nodup) (hord' : ord'.Nodup) (s1 s2 s1' s2' : List Chr) (fs0 : FS) (hi : IndexSound cfg fs0) (k : Nat)
     (hk : (lockList cfg fs0).length + 2 ≤ k) :
     verdictPoolFrom fixed cfg ord ord' s1 s2 s1' s2' fs0 k = .equal :=
-  resume_correct_pool_from wf ord ord' hord hord' s1 s2 s1' s2' fs0 (fun e => by rw [hm] at e; exact absurd e (by simp)) k hk
+  resume_correct_pool_from wf ord ord' hord hord' s1 s2 s1' s2' fs0 (fun e => by rw [hm] at e; exact absurd e (by simp)) hi k hk
 
 /-- process pool, `--read_assignments`: run from kept save files (complete; any stale `_processed` locks, statistics
     files or other leftovers next to them), kill, resume -/
 theorem resume_correct_pool_read_assignments {cfg : Cfg} (wf : WF cfg) (hm : cfg.fromSaves = true) (ord ord' : List Path)
-    (hord : ord.Nodup) (hord' : ord'.Nodup) (s1 s2 s1' s2' : List Chr) (fs0 : FS) (hs : SavesConsistent cfg fs0) (k : Nat)
+    (hord : ord.Nodup) (hord' : ord'.Nodup) (s1 s2 s1' s2' : List Chr) (fs0 : FS) (hs : SavesConsistent cfg fs0)
+    (hi : IndexSound cfg fs0) (k : Nat)
     (hk : (lockList cfg fs0).length + 2 ≤ k) : verdictPoolFrom fixed cfg ord ord' s1 s2 s1' s2' fs0 k = .equal :=
-  resume_correct_pool_from wf ord ord' hord hord' s1 s2 s1' s2' fs0 (fun _ => hs) k hk
+  resume_correct_pool_from wf ord ord' hord hord' s1 s2 s1' s2' fs0 (fun _ => hs) hi k hk
 
 /-- **full-strength property under a process pool** (fresh output folder, BAM input): for every interleaving `s1 s2`
     of the killed run, every kill point `k ≥ 2` of its global event list and every interleaving `s1' s2'` of the resumed
@@ -150,7 +151,8 @@ theorem resume_correct_pool_read_assignments {cfg : Cfg} (wf : WF cfg) (hm : cfg
 theorem resume_correct_pool {cfg : Cfg} (wf : WF cfg) (hm : cfg.fromSaves = false) (ord ord' : List Path) (hord : ord.Nodup)
     (hord' : ord'.Nodup) (s1 s2 s1' s2' : List Chr) (k : Nat) (hk : 2 ≤ k) :
     verdictPool fixed cfg ord ord' s1 s2 s1' s2' k = .equal :=
-  resume_correct_pool_dirty_folder wf hm ord ord' hord hord' s1 s2 s1' s2' FS.empty k (by rw [lockList_empty]; simpa using hk)
+  resume_correct_pool_dirty_folder wf hm ord ord' hord hord' s1 s2 s1' s2' FS.empty (indexSound_empty cfg) k
+    (by rw [lockList_empty]; simpa using hk)
 
 /-- safety half: a resumed pool run never exits successfully with different, truncated or missing results -/
 theorem resume_never_silently_wrong_pool {cfg : Cfg} (wf : WF cfg) (hm : cfg.fromSaves = false) (ord ord' : List Path)
